@@ -5,6 +5,9 @@ import (
 	"errors"
 	"fmt"
 	"math/rand"
+	"os"
+	"path/filepath"
+	"syscall"
 	"time"
 
 	"verif/harness/world"
@@ -410,4 +413,86 @@ func RunProducerRandom(c *Ctx, runs, maxLen int) {
 		c.Count("randomsteps", n)
 	}
 	_ = time.Now
+}
+
+// ---------------------------------------------------------------- torn cache files
+
+// RunProducerCacheTear: a crash in the middle of writing the on-disk caches at shutdown. The caches
+// are saved twice; whether a file is rewritten in place (same inode: any prefix of the new content is a
+// reachable crash state) or replaced atomically (new inode: only the old or the new complete content,
+// plus a stray temporary file, are reachable) is OBSERVED, and only reachable states are produced.
+func RunProducerCacheTear(c *Ctx) {
+	for _, ih := range []uint64{1, 3} {
+		// discover the cache files
+		probe := newProdRun(c, fmt.Sprintf("cachetear/ih%d/probe", ih), ih, world.F{"src": "cachetear"})
+		probe.restart(-1)
+		probe.step(-1)
+		probe.pushReply("batch", "later", [][]byte{probe.txBytes("a")})
+		probe.step(-1)
+		probe.n.M.SaveCache()
+		var files []string
+		filepath.Walk(probe.n.Root, func(p string, info os.FileInfo, err error) error {
+			if err == nil && !info.IsDir() {
+				rel, _ := filepath.Rel(probe.n.Root, p)
+				files = append(files, rel)
+			}
+			return nil
+		})
+		probe.settle(1)
+		probe.close()
+		for _, rel := range files {
+			for _, cut := range []string{"zero", "mid", "last"} {
+				p := newProdRun(c, fmt.Sprintf("cachetear/ih%d/%s/%s", ih, filepath.Base(filepath.Dir(rel))+"-"+filepath.Base(rel), cut), ih, world.F{"src": "cachetear"})
+				p.restart(-1)
+				p.step(-1)
+				p.pushReply("batch", "later", [][]byte{p.txBytes("a")})
+				p.step(-1)
+				p.n.M.SaveCache() // an earlier clean shutdown
+				full := filepath.Join(p.n.Root, rel)
+				old, _ := os.ReadFile(full)
+				ino0 := inode(full)
+				p.pushReply("batch", "later", [][]byte{p.txBytes("b")})
+				p.step(-1)
+				p.n.M.HeaderCache().SetDAIncluded("some-hash-so-that-the-files-change", 5)
+				p.n.M.DataCache().SetSeen("another-hash")
+				p.n.M.SaveCache() // the shutdown that is interrupted
+				cur, _ := os.ReadFile(full)
+				mode := "inplace"
+				if inode(full) != ino0 {
+					mode = "replaced"
+				}
+				switch mode {
+				case "inplace":
+					n := map[string]int{"zero": 0, "mid": len(cur) / 2, "last": len(cur) - 1}[cut]
+					if n < 0 {
+						n = 0
+					}
+					os.WriteFile(full, cur[:n], 0o644)
+				case "replaced":
+					// reachable: the old complete file (crash before the rename) and a torn temporary file next to it
+					if cut != "last" {
+						os.WriteFile(full, old, 0o644)
+					}
+					os.WriteFile(full+".tmp-crash", cur[:len(cur)/2], 0o644)
+				}
+				c.Tr.Emit("CacheTear", world.F{"node": "seq", "file": rel, "cut": cut, "mode": mode})
+				p.n.M = nil
+				p.restart(-1)
+				p.settle(2)
+				p.close()
+				c.Count("cachetear", 1)
+			}
+		}
+	}
+}
+
+func inode(path string) uint64 {
+	fi, err := os.Stat(path)
+	if err != nil {
+		return 0
+	}
+	if st, ok := fi.Sys().(*syscall.Stat_t); ok {
+		return st.Ino
+	}
+	return 0
 }
